@@ -70,6 +70,9 @@ GoodRun(kind, o, c, bytes, r) ==
   /\ (kind \in {"wk.key", "wk.params"} => r.rep = SlotCount(kind, o) /\ r.rep2 = r.rep)
   /\ Abs(kind, r.obj) = AbsIn(kind, o)
   /\ r.relen = Len(bytes) /\ r.again = bytes
+  \* the second documented route (static unmarshalled_length, count stored by hand, target object with a stale signature-support flag)
+  /\ ("route2" \in DOMAIN r => /\ r.route2.fault = 0 /\ r.route2.ok = 1 /\ Abs(kind, r.route2.obj) = AbsIn(kind, o)
+                               /\ r.route2.relen = Len(bytes) /\ r.route2.again = bytes)
 
 \* ---- validating parse of an arbitrary buffer of a fixed layout (element list) --------------------------------------
 \* every embedded group element must pass DecodeChecked; elems = sequence of <<group, offset(0-based)>>
